@@ -24,10 +24,7 @@ type c38In struct {
 	Probe int      `json:"probe"` // index of the probe this case is about: 0 = after set-up, k = after Ops[k-1]
 }
 
-const (
-	c38LinTimeout = 2 * time.Second        // LinearizableTimeout given to the read
-	c38Slow       = 900 * time.Millisecond // a served read slower than this counts as not completing (correct code: a few ms)
-)
+const c38LinTimeout = 2 * time.Second // LinearizableTimeout given to the read (correct code answers in a few ms)
 
 var c38OpKinds = []string{"write", "strong", "lin", "noop", "barrier", "join-nonvoter", "join-voter", "remove", "snapshot", "snapshot-trim", "stepdown"}
 
@@ -61,7 +58,7 @@ func (h *c38Hist) join(ld *vcNode, voter bool) error {
 		return err
 	}
 	if err := ld.s.Join(joinRequest(s.ID(), s.Addr(), voter)); err != nil {
-		s.Close(true)
+		vcCloseStore(s, 20*time.Second)
 		return err
 	}
 	h.c.nodes = append(h.c.nodes, &vcNode{s: s, voter: voter, name: id})
@@ -107,7 +104,7 @@ func (h *c38Hist) apply(ld *vcNode, op string) error {
 				if err := ld.s.Remove(ctx, removeNodeRequest(n.s.ID())); err != nil {
 					return err
 				}
-				n.s.Close(true)
+				vcCloseStore(n.s, 20*time.Second)
 				n.s = nil
 				return nil
 			}
@@ -220,18 +217,14 @@ func (h *c38Hist) probe(w *vWriter, in c38In, note string) {
 	c := VCase{Input: in, Key: key, Tags: tags, Nontrivial: nontrivial,
 		Coq: fmt.Sprintf("{| c_node := {| n_done := %s; n_todo := %s; n_rest := %s |}; c_term := %s; c_srt := %s; c_leader := %s; c_ready := %s; c_seen := %s |}",
 			coqList(done), coqList(pre.Kinds), coqList(rest), coqN(pre.Term), coqN(pre.Srt), coqBool(pre.Leader), coqBool(pre.Ready), seen)}
-	// the property: a healthy leader serves the read (possibly as the term's first, strong, read) and does so promptly
-	if err != nil || lat > c38Slow {
-		what := "refused"
-		if err == nil {
-			what = "slow"
-		}
-		c.Sig = "C38:linearizable-read-" + what + ":" + vcErrClass(err)
-		if (errors.Is(err, ErrWaitForFSMTimeout) || err == nil) && nontrivial {
+	// the property: a healthy leader serves the read (possibly as the term's first, strong, read) within its timeout
+	if err != nil {
+		c.Sig = "C38:linearizable-read-refused:" + vcErrClass(err)
+		if errors.Is(err, ErrWaitForFSMTimeout) && nontrivial {
 			c.Sig = "C38:read-index-on-non-command-entry"
 		}
-		c.OracleFail = fmt.Sprintf("linearizable read on the healthy leader %s after [%s]%s: err=%v latency=%v (commit index %d is a %s entry, fsm index %d)",
-			what, strings.Join(in.Ops[:in.Probe], ", "), note, err, lat.Round(time.Millisecond), pre.Commit, lastKind, pre.FsmIdx)
+		c.OracleFail = fmt.Sprintf("linearizable read on the healthy leader refused after [%s]%s: err=%v latency=%v (commit index %d is a %s entry, fsm index %d)",
+			strings.Join(in.Ops[:in.Probe], ", "), note, err, lat.Round(time.Millisecond), pre.Commit, lastKind, pre.FsmIdx)
 	}
 	w.Emit(c)
 }
